@@ -4,27 +4,31 @@
    lemmas of Inv/Jitcount_func.v (partial correctness through [run_sound], functional loop invariants):
 
      for EVERY time array ts and data column vs (integer ticks / integer values; no sortedness, no
-     length condition), EVERY interval list ep and every EVEN bin size b = 2h > 0 ticks, running the
+     length condition), EVERY interval list ep and EVERY bin size b > 0 ticks (even or odd), running the
      translated kernel on the arguments its Python caller jitbin_array builds
          countin = counts of jitrestrict_with_count   (= restrict_cnt ts ep, Inv/Jitrestrict_with_count_func.v)
          time_array[idx], data_array[idx]             (idx = restrict_idx ts ep)
          starts ep, ends ep, b * 1e-9
      returns, whenever it returns, exactly
        [ array of the bin centres ; array of the per-bin means  sum / count  (NaN for an empty bin) ]
-     of  bin_sum_cnt ts vs ep b  (rows (2*centre, (count, sum))).
+     of  bin_sum_cnt ts vs ep b  (rows (2*centre, (count, sum))), a doubled centre c2 being reported as the
+     tick [centre_tick c2] = np.round(c2 / 2 * 1e-9, 9) (c2 / 2, or the even neighbour of a half tick).
 
    Times are the floats [qtick t] = t * 1e-9; data values and counts are integer-valued floats
    [inject_Z v]; the interpreter's floats being exact rationals, the running sums stay integers and the
    returned mean is the interpreter's quotient [fdiv sum count] (NaN when count = 0).
-   Hypotheses: b > 0 and b even (same reason as for jitcount: see [odd_bin_size_differs] in
-   Inv/Jitcount_func.v and the example at the end of this file).  start <= end is NOT needed here: the
-   kernel receives the restricted arrays and the model restricts with the same scan. *)
+   Hypothesis: b > 0 only.  start <= end is NOT needed here: the kernel receives the restricted arrays and
+   the model restricts with the same scan.  No parity condition on b: the kernel decides whether a bin is
+   reported with  np.round(2 * lbound + bin_size, 9) > 2 * ends[k]  (the model's test on the exact centre).
+   HISTORY: before that repair the kernel compared the ROUNDED centre with the end and the refinement held
+   for even b only; [k__jitbin_array_before_fix] (Inv/Findings.v) is the frozen translation of that text and
+   [odd_bin_size_differs_bin_array] at the end of this file the computed witness. *)
 From Coq Require Import ZArith QArith Qround String List Bool Lia.
 From Verif Require Import Base.Prelude Model.Restrict Model.Count Proofs.BaseLemmas Proofs.RestrictProofs
   Proofs.CountProofs.
 From Verif Require Import Jit.Lang Jit.Interp Jit.Safety Jit.Tactics Jit.ArrayFacts Jit.FloatFacts Gen.Kernels.
 From Verif Require Import Inv.Jitfix_iset_func.
-From Verif Require Import Inv.Jitrestrict_func Inv.Jitrestrict_with_count_func Inv.Jitcount_func.
+From Verif Require Import Inv.Jitrestrict_func Inv.Jitrestrict_with_count_func Inv.Jitcount_func Inv.Findings.
 Import ListNotations.
 Open Scope Z_scope.
 #[local] Hint Rewrite zlen_qcells zlen_firsts zlen_seconds : zlen.
@@ -115,7 +119,7 @@ Qed.
 End Segs.
 
 (* ---------- the model, indexed by positions ---------- *)
-Definition bcell (p : Z * (nat * Z)) : sval := VFlt (Some (qhalf (fst p))).
+Definition bcell (p : Z * (nat * Z)) : sval := VFlt (Some (qtick (centre_tick (fst p)))).
 Definition kcell (p : Z * (nat * Z)) : sval := VFlt (Some (inject_Z (Z.of_nat (fst (snd p))))).
 Definition scell (p : Z * (nat * Z)) : sval := VFlt (Some (inject_Z (snd (snd p)))).
 Definition mean_cell (p : Z * (nat * Z)) : sval :=
@@ -133,8 +137,7 @@ Qed.
 Section Model.
 Variable ts vs : list Z.
 Variable ep : iset.
-Variable B h : Z.
-Hypothesis HB : B = 2 * h.
+Variable B : Z.
 
 Notation sk := (Jitrestrict_func.sk ep).
 Notation ek := (Jitrestrict_func.ek ep).
@@ -269,7 +272,7 @@ Proof.
 Qed.
 
 Lemma RT3_break : forall k b0 maxb maxt bi t bins cnt avg,
-  RInv4 k b0 maxb maxt bi t bins cnt avg -> ek k < lbz ep B k b0 bi + h -> RInv3 (k + 1) bi bins cnt avg.
+  RInv4 k b0 maxb maxt bi t bins cnt avg -> 2 * ek k < 2 * lbz ep B k b0 bi + B -> RInv3 (k + 1) bi bins cnt avg.
 Proof.
   intros k b0 maxb maxt bi t bins cnt avg (L & R & E) Hlt. unfold RInv3. rewrite <- E.
   destruct (Z.to_nat (maxb - bi)) as [|f]; simpl.
@@ -321,11 +324,11 @@ Proof.
 Qed.
 
 Lemma RT4_step : forall k b0 maxb maxt bi t0 bins cnt0 avg0 t cnt avg,
-  RInv4 k b0 maxb maxt bi t0 bins cnt0 avg0 -> b0 <= bi < maxb -> lbz ep B k b0 bi + h <= ek k ->
+  RInv4 k b0 maxb maxt bi t0 bins cnt0 avg0 -> b0 <= bi < maxb -> 2 * lbz ep B k b0 bi + B <= 2 * ek k ->
   RInv6 (lbz ep B k b0 bi + B) bi t0 maxt cnt0 avg0 t cnt avg -> t0 <= t <= maxt -> 0 <= t0 ->
   (t = maxt \/ (t < zlen GR /\ lbz ep B k b0 bi + B <= tk Gt t)) ->
   0 <= bi < zlen bins -> zlen cnt0 = zlen bins -> zlen avg0 = zlen bins ->
-  RInv4 k b0 maxb maxt (bi + 1) t (updZ bins bi (VFlt (Some (qtick (lbz ep B k b0 bi + h))))) cnt avg.
+  RInv4 k b0 maxb maxt (bi + 1) t (updZ bins bi (VFlt (Some (qtick (centre_tick (2 * lbz ep B k b0 bi + B)))))) cnt avg.
 Proof.
   intros k b0 maxb maxt bi t0 bins cnt0 avg0 t cnt avg (L & (R1 & R2 & R3 & R4 & R5 & R6) & E) Hb Hc
          (S & -> & -> & E1 & E2 & E3) Ht H0 X Hbb Hz Hza.
@@ -342,8 +345,7 @@ Proof.
   exists (L ++ [(2 * lbz ep B k b0 bi + B, (length a, sumZ (map snd a)))])%list. split.
   - unfold Rep. repeat split.
     + unfold zlen in *. rewrite app_length. simpl. lia.
-    + rewrite firstn_updZ_snoc by lia. rewrite R2, map_app. simpl. f_equal. unfold bcell. simpl.
-      replace (2 * lbz ep B k b0 bi + B) with (2 * (lbz ep B k b0 bi + h)) by lia. rewrite qhalf_even. reflexivity.
+    + rewrite firstn_updZ_snoc by lia. rewrite R2, map_app. reflexivity.
     + rewrite firstn_updZ_snoc by lia. rewrite R3, map_app. simpl. f_equal. unfold kcell. simpl.
       f_equal. f_equal. f_equal. f_equal. lia.
     + rewrite firstn_updZ_snoc by lia. rewrite R4, map_app. simpl. f_equal. unfold scell. simpl.
@@ -437,28 +439,27 @@ Ltac saturate :=
              end
          end.
 
-#[local] Hint Rewrite fadd_q fsub_q round9_q tick_of_q cmp_lt_q cmp_gt_q cmp_ge_q : qt.
+#[local] Hint Rewrite fadd_q fsub_q fmul2_q fadd_q_half round9_q round9_half tick_of_q cmp_lt_q cmp_gt_q cmp_ge_q : qt.
 
-Lemma k__jitbin_array_computes_model_2h : forall ts vs ep h fuel,
-  0 < h ->
-  match run fuel k__jitbin_array (bin_array_args ts vs ep (2 * h)) with
-  | Return rs => rs = bin_array_result (bin_sum_cnt ts vs ep (2 * h))
+Theorem k__jitbin_array_computes_model : forall ts vs ep B fuel,
+  0 < B ->
+  match run fuel k__jitbin_array (bin_array_args ts vs ep B) with
+  | Return rs => rs = bin_array_result (bin_sum_cnt ts vs ep B)
   | OutOfFuel => True
   | _ => False
   end.
 Proof.
-  intros ts vs ep h fuel Hh.
-  pose proof (run_sound all_kernels (ann_func ts vs ep (2 * h)) k__jitbin_array
-                (fun rs => rs = bin_array_result (bin_sum_cnt ts vs ep (2 * h)))
-                (bin_array_args ts vs ep (2 * h)) fuel) as RS.
+  intros ts vs ep B fuel HB.
+  pose proof (run_sound all_kernels (ann_func ts vs ep B) k__jitbin_array
+                (fun rs => rs = bin_array_result (bin_sum_cnt ts vs ep B))
+                (bin_array_args ts vs ep B) fuel) as RS.
   unfold run.
   match type of RS with ?P -> _ => assert (W : P) end.
   2: { specialize (RS W). unfold Interp.run in *.
        destruct (exec all_kernels fuel (fbody k__jitbin_array)
-                   (init_store k__jitbin_array (bin_array_args ts vs ep (2 * h))));
+                   (init_store k__jitbin_array (bin_array_args ts vs ep B)));
          simpl in *; auto. }
   clear RS. unfold bin_array_args.
-  remember (2 * h) as B eqn:HB.
   rewrite <- (Gt_select ts vs ep), <- (Gv_select ts vs ep).
   pose proof (nonneg_index_cells (restrict_cnt ts ep)) as Ncin.
   pose proof (zlen_countin ts ep) as Lcin.
@@ -489,7 +490,7 @@ Proof.
          end.
   (* the cells of the argument arrays, the float arithmetic on the tick lattice *)
   all: repeat match goal with Hq : ?q = Some (qtick _) |- _ => is_var q; subst q end.
-  all: try rewrite (fdiv2_q' B h HB) in *.
+  all: try rewrite fdiv2_half in *.
   all: repeat match goal with
          | Hc : context [to_flt (nthZ (qcells ?l) ?k)] |- _ =>
              rewrite (nth_qcells l k) in Hc by (autorewrite with zlen; lia)
@@ -513,12 +514,12 @@ Proof.
   all: try match goal with
          | |- nonneg_ints (updZ _ _ (VInt 1)) => apply nonneg_updZ; [assumption | lia]
          | |- nonneg_ints (updZ _ _ (VInt (cdiv ?x _))) =>
-             apply nonneg_updZ; [assumption | pose proof (cdiv_pos B h HB Hh x ltac:(lia)); lia]
+             apply nonneg_updZ; [assumption | pose proof (cdiv_pos B HB x ltac:(lia)); lia]
          | |- Inv1 _ _ (_ + 1) (updZ _ _ (VInt 1)) =>
              apply T1_step; [assumption | lia | symmetry; apply nbz_le; unfold Jitrestrict_func.sk, Jitrestrict_func.ek; lia]
          | |- Inv1 _ _ (_ + 1) (updZ _ _ (VInt (cdiv _ _))) =>
              apply T1_step; [assumption | lia
-                            | symmetry; apply (nbz_gt ep B h HB Hh); unfold Jitrestrict_func.sk, Jitrestrict_func.ek; lia]
+                            | symmetry; apply (nbz_gt ep B HB); unfold Jitrestrict_func.sk, Jitrestrict_func.ek; lia]
          end.
   (* loop 2 / loop 3 *)
   all: try match goal with
@@ -528,9 +529,9 @@ Proof.
              [ lia | apply (Inv1_nth ep B _ d k I1); lia
              | rewrite Ht, Hcin; apply psum_countin_r; lia
              | rewrite Hcin; apply nth_countin_r; lia ]
-         | I4 : RInv4 _ _ _ _ ?k ?b0 ?maxb ?maxt ?bi ?t ?bins ?cnt ?avg, Hc : _ < lbz _ _ _ _ _ + _
+         | I4 : RInv4 _ _ _ _ ?k ?b0 ?maxb ?maxt ?bi ?t ?bins ?cnt ?avg, Hc : _ < 2 * lbz _ _ _ _ _ + _
            |- RInv3 _ _ _ _ (?k + 1) ?bi ?bins ?cnt ?avg =>
-             apply (RT3_break ts vs ep B h HB k b0 maxb maxt bi t bins cnt avg I4); unfold Jitrestrict_func.ek; lia
+             apply (RT3_break ts vs ep B k b0 maxb maxt bi t bins cnt avg I4); unfold Jitrestrict_func.ek; lia
          | I4 : RInv4 _ _ _ _ ?k ?b0 ?maxb ?maxt ?bi ?t ?bins ?cnt ?avg |- RInv3 _ _ _ _ (?k + 1) ?bi ?bins ?cnt ?avg =>
              apply (RT3_done ts vs ep B k b0 maxb maxt bi t bins cnt avg I4); lia
          end.
@@ -547,7 +548,7 @@ Proof.
          | I4 : RInv4 _ _ _ _ ?k ?b0 ?maxb ?maxt ?bi ?t0 ?bins ?cnt0 ?avg0,
            I6 : RInv6 _ _ _ _ ?bi ?t0 ?maxt ?cnt0 ?avg0 ?t ?cnt ?avg
            |- RInv4 _ _ _ _ ?k ?b0 ?maxb ?maxt (?bi + 1) ?t (updZ ?bins ?bi _) ?cnt ?avg =>
-             apply (RT4_step ts vs ep B h HB k b0 maxb maxt bi t0 bins cnt0 avg0 t cnt avg I4);
+             apply (RT4_step ts vs ep B k b0 maxb maxt bi t0 bins cnt0 avg0 t cnt avg I4);
              [ lia | unfold Jitrestrict_func.ek; lia | exact I6 | lia | lia
              | lazymatch goal with
                | _ : maxt <= t |- _ => left; lia
@@ -562,29 +563,68 @@ Proof.
          end.
 Qed.
 
-Theorem k__jitbin_array_computes_model : forall ts vs ep b fuel,
-  0 < b -> Z.even b = true ->
+(* for an even bin size the reported centre is the exact float (c2 / 2) * 1e-9 = [qhalf c2] (the form in which
+   the refinement was stated when it was proved for even bin sizes only) *)
+Definition bcell_exact (p : Z * (nat * Z)) : sval := VFlt (Some (qhalf (fst p))).
+Definition bin_array_result_exact (R : list (Z * (nat * Z))) : list value :=
+  [Ar (A1 DFlt (map bcell_exact R)); Ar (A1 DFlt (map mean_cell R))].
+Lemma bins_rows_go_centres : forall f lb e b l, Z.even b = true ->
+  Forall (fun p => Z.even (fst p) = true) (bins_rows_go f lb e b l).
+Proof.
+  induction f as [|f IH]; intros lb e b l Hb; simpl; [constructor|].
+  destruct (2 * e <? 2 * lb + b)%Z; [constructor|].
+  destruct (span_lt_rows (lb + b)%Z l) as [a c]. constructor; [|apply IH; exact Hb].
+  simpl. rewrite Z.even_add, Z.even_mul, Hb. reflexivity.
+Qed.
+Lemma bin_sum_cnt_centres : forall ts vs ep b, Z.even b = true ->
+  Forall (fun p => Z.even (fst p) = true) (bin_sum_cnt ts vs ep b).
+Proof.
+  intros ts vs ep b Hb. unfold bin_sum_cnt. apply Forall_concat. apply Forall_map. apply Forall_forall.
+  intros [[s e] rows] _. apply Forall_map.
+  eapply Forall_impl; [|apply (bins_rows_go_centres _ s e b rows Hb)]. intros [c l] H. exact H.
+Qed.
+Lemma bin_array_result_even : forall R, Forall (fun p => Z.even (fst p) = true) R ->
+  bin_array_result R = bin_array_result_exact R.
+Proof.
+  intros R H. unfold bin_array_result, bin_array_result_exact. do 3 f_equal.
+  induction H as [|p r Hp _ IH]; [reflexivity|]. simpl. rewrite IH. f_equal.
+  unfold bcell, bcell_exact. apply Z.even_spec in Hp. destruct Hp as [x ->].
+  rewrite centre_tick_even, qhalf_even. reflexivity.
+Qed.
+Corollary k__jitbin_array_computes_model_even : forall ts vs ep b fuel,
+  (0 < b)%Z -> Z.even b = true ->
   match run fuel k__jitbin_array (bin_array_args ts vs ep b) with
-  | Return rs => rs = bin_array_result (bin_sum_cnt ts vs ep b)
+  | Return rs => rs = bin_array_result_exact (bin_sum_cnt ts vs ep b)
   | OutOfFuel => True
   | _ => False
   end.
 Proof.
-  intros ts vs ep b fuel Hb He. apply Z.even_spec in He. destruct He as [h ->].
-  apply k__jitbin_array_computes_model_2h. lia.
+  intros ts vs ep b fuel Hb He.
+  rewrite <- (bin_array_result_even _ (bin_sum_cnt_centres ts vs ep b He)).
+  apply k__jitbin_array_computes_model; assumption.
 Qed.
 
-(* not vacuous: with enough fuel the kernel does return (termination itself is not proved) *)
+(* not vacuous: with enough fuel the kernel does return (termination: Inv/Jitbin_array_term.v) *)
 Example k__jitbin_array_runs :
   run 300 k__jitbin_array (bin_array_args [0; 5; 9; 12] [3; 4; 5; 6] [(4, 6); (8, 20)] 4)
   = Return (bin_array_result [(12, (1%nat, 4)); (20, (1%nat, 5)); (28, (1%nat, 6)); (36, (0%nat, 0))]).
 Proof. vm_compute. reflexivity. Qed.
+(* an odd bin size (3 ticks, interval [4, 10]): doubled centres 11 and 17, the third one (23) lies beyond the end *)
+Example k__jitbin_array_runs_odd :
+  run 300 k__jitbin_array (bin_array_args [0; 5; 9; 12] [3; 4; 5; 6] [(4, 10)] 3)
+  = Return (bin_array_result [(11, (1%nat, 4)); (17, (1%nat, 5))]).
+Proof. vm_compute. reflexivity. Qed.
 
-(* the evenness hypothesis is needed (the centre rounded to the nanosecond is compared with the end) *)
+(* HISTORY: the kernel text before the repair ([k__jitbin_array_before_fix], Inv/Findings.v: the centre ROUNDED to
+   the nanosecond compared with the end) differed from the model for an odd bin size; the repaired text agrees *)
 Example odd_bin_size_differs_bin_array :
-  run 300 k__jitbin_array (bin_array_args [0] [9] [(0, 0)] 1)
+  run 300 k__jitbin_array_before_fix (bin_array_args [0] [9] [(0, 0)] 1)
   = Return [Ar (A1 DFlt [VFlt (Some 0%Q)]); Ar (A1 DFlt [VFlt (Some 9%Q)])]
   /\ bin_sum_cnt [0] [9] [(0, 0)] 1 = [].
 Proof. split; vm_compute; reflexivity. Qed.
+Example odd_bin_size_repaired_bin_array :
+  run 300 k__jitbin_array (bin_array_args [0] [9] [(0, 0)] 1) = Return [Ar (A1 DFlt []); Ar (A1 DFlt [])].
+Proof. vm_compute. reflexivity. Qed.
 
 Print Assumptions k__jitbin_array_computes_model.
+Print Assumptions k__jitbin_array_computes_model_even.
